@@ -13,6 +13,7 @@ from evalcommon import init_worker, requests, observe, describe, undescribe, key
 
 CONFIG = {
     "id": "C09",
+    "also": ["C09b"],   # the creation half: harness/c09b.py + coq/Properties/C09b.v
     "rule": ("the C15 documents and paths (every handler branch) plus a collector-heavy stream: every document of "
              "the fixed list and every flow-YAML tree of <= 3 nodes x collector expressions built from 14 operands "
              "(keys, *, **, indexes, slices, searches, nested collectors) joined by +, - and & (all pairs, sampled "
